@@ -1,7 +1,204 @@
-(* C04 — placeholder while the model is being validated; replaced by the theorem file. *)
-From Coq Require Import ZArith List Bool.
-From V Require Import Base.Tree Base.Bytes C04.Model C04.Spec.
+(* C04 — field values survive encoding and decoding unchanged (value level: DataType.Bytes / GoValue).
+   Property theorems only.  The model (C04/Model.v, C04/Calendar.v, C04/Utf16.v) is compared with
+   asetypes/bytes.go, goValue.go and asetime on every run; RefCalendar is the independent calendar
+   (next_day walking) that measures the distance between two instants. *)
+From Coq Require Import ZArith List Bool Lia.
+Import ListNotations.
+From V Require Import Base.Tree Base.Bytes Gen.GenC04 C04.GoInt C04.Calendar C04.Utf16 C04.Model C04.Exchange
+  C04.RefCalendar C04.Spec C04.RefCalFacts C04.CalFacts C04.CalSweep C04.ProofsScalar C04.ProofsUnitext C04.ProofsTemporal C04.ProofsSpec.
 Open Scope Z_scope.
-Example C04_placeholder : dec_value 48 (7 :: nil) = Ok (VInt U8 7).
-Proof. vm_compute. reflexivity. Qed.
-Print Assumptions C04_placeholder.
+
+(* (1) fixed-width integers INT1/2/4/8, UINT2/4/8 with their Go types: every value of the type, any length
+   argument; the produced bytes have the fixed size of the type. *)
+Theorem C04_int_roundtrip : forall t k x len, fixed_int_kind t = Some k -> ik_range k x = true ->
+  exists bs, enc_value t (VInt k x) len = Ok bs /\ zlen bs = bytesize t /\ bytes_ok bs = true /\
+             dec_value t bs = Ok (VInt k x).
+Proof. exact int_roundtrip. Qed.
+
+(* (2) INTN (uint8, int16, int32, int64) and UINTN (uint8, uint16, uint32, uint64): every value of every width. *)
+Theorem C04_intn_roundtrip : forall t k x len, intn_kind t k -> ik_range k x = true ->
+  exists bs, enc_value t (VInt k x) len = Ok bs /\ bytes_ok bs = true /\ dec_value t bs = Ok (VInt k x).
+Proof. exact intn_roundtrip. Qed.
+
+(* (3) floats as IEEE bit patterns (NaN payloads, infinities, signed zero included): FLT4, FLT8, FLTN *)
+Theorem C04_float_roundtrip : forall t w bits len,
+  ((t = t_FLT4 \/ t = t_FLTN) /\ w = 32 /\ 0 <= bits < 2 ^ 32) \/
+  ((t = t_FLT8 \/ t = t_FLTN) /\ w = 64 /\ 0 <= bits < 2 ^ 64) ->
+  exists bs, enc_value t (VFlt w bits) len = Ok bs /\ zlen bs = w / 8 /\ bytes_ok bs = true /\
+             dec_value t bs = Ok (VFlt w bits).
+Proof. exact flt_roundtrip. Qed.
+
+(* (4) BIT *)
+Theorem C04_bit_roundtrip : forall b len,
+  exists bs, enc_value t_BIT (VBool b) len = Ok bs /\ zlen bs = 1 /\ dec_value t_BIT bs = Ok (VBool b).
+Proof. exact bit_roundtrip. Qed.
+
+(* (5) money: the whole int64 range for MONEY / MONEYN(8), the whole int32 range for SHORTMONEY / MONEYN(4);
+   the decoded Decimal carries the money precision and scale 4 *)
+Theorem C04_money_roundtrip : forall t p s x, (t = t_MONEY \/ t = t_MONEYN) -> - 2 ^ 63 <= x < 2 ^ 63 ->
+  exists bs, enc_value t (VDec p s (Some x)) 8 = Ok bs /\ zlen bs = 8 /\ bytes_ok bs = true /\
+             dec_value t bs = Ok (VDec 20 4 (Some x)).
+Proof. exact money8_roundtrip. Qed.
+Theorem C04_shortmoney_roundtrip : forall t p s x, (t = t_SHORTMONEY \/ t = t_MONEYN) -> - 2 ^ 31 <= x < 2 ^ 31 ->
+  exists bs, enc_value t (VDec p s (Some x)) 4 = Ok bs /\ zlen bs = 4 /\ bytes_ok bs = true /\
+             dec_value t bs = Ok (VDec 10 4 (Some x)).
+Proof. exact money4_roundtrip. Qed.
+
+(* (6) DECN / NUMN: EVERY integer x (no bound on the magnitude), any precision/scale/length argument; precision and
+   scale are not on the wire (the decoder answers 18, 0; they travel in the format) *)
+Theorem C04_numeric_roundtrip : forall t p s x len, (t = t_DECN \/ t = t_NUMN) ->
+  exists bs, enc_value t (VDec p s (Some x)) len = Ok bs /\ 1 <= zlen bs /\
+             hd 0 bs = (if x <? 0 then 1 else 0) /\
+             dec_value t bs = Ok (VDec 18 0 (Some x)).
+Proof. exact numeric_roundtrip. Qed.
+
+(* (7) character and binary types: every non-empty byte string, of any length *)
+Theorem C04_char_roundtrip : forall t bs len, In t char_types -> bs <> [] ->
+  enc_value t (VStr bs) len = Ok bs /\ dec_value t bs = Ok (VStr bs).
+Proof. exact char_roundtrip. Qed.
+Theorem C04_binary_roundtrip : forall t bs len, In t bin_types -> bs <> [] ->
+  enc_value t (VBytes bs) len = Ok bs /\ dec_value t bs = Ok (VBytes bs).
+Proof. exact binary_roundtrip. Qed.
+
+(* (8) UNITEXT: every non-empty list of Unicode scalar values (all planes) that does not end in U+0000 *)
+Theorem C04_unitext_roundtrip : forall cps len, cps <> [] -> forallb is_scalar cps = true -> last_nonzero cps = true ->
+  enc_value t_UNITEXT (VText cps) len = Ok (units_to_le (utf16_encode cps)) /\
+  dec_value t_UNITEXT (units_to_le (utf16_encode cps)) = Ok (VText cps).
+Proof. exact unitext_roundtrip. Qed.
+
+(* (9) DATE / DATEN: every day of the years 1..9999 (the proof covers 10000 too), whatever the time part *)
+Theorem C04_date_roundtrip : forall t tm, (t = t_DATE \/ t = t_DATEN) -> valid_time tm = true -> 1 <= cy tm <= 9999 ->
+  exists bs, enc_value t (VTime tm) 4 = Ok bs /\ zlen bs = 4 /\
+             dec_value t bs = Ok (VTime (CT (cy tm) (cmo tm) (cd tm) 0 0 0 0)).
+Proof.
+  intros t tm Ht V Hy. destruct (date_roundtrip t tm Ht V ltac:(lia)) as [E D].
+  eexists. split; [exact E|]. split; [apply GoIntFacts.zlen_le_put|exact D].
+Qed.
+
+(* (10) DATETIME / DATETIMEN(8): every nanosecond of every day of the years 1..9999: the decoded instant is a valid
+   time less than 1/300 s away (measured with the reference calendar), and identical when the value lies on a tick *)
+Theorem C04_datetime_tick : forall t tm, (t = t_DATETIME \/ t = t_DATETIMEN) -> valid_time tm = true -> 1 <= cy tm <= 9999 ->
+  exists bs tm', enc_value t (VTime tm) 8 = Ok bs /\ zlen bs = 8 /\
+                 dec_value t bs = Ok (VTime tm') /\ valid_time tm' = true /\
+                 300 * Z.abs (abs_ns tm' - abs_ns tm) < 1000000000 /\
+                 (on_tick (tod_ns tm) = true -> tm' = tm).
+Proof.
+  intros t tm Ht V Hy. destruct (datetime_roundtrip t tm Ht V Hy) as [E [L [tm' [D [V' [W O]]]]]].
+  exists (datetime_bytes tm), tm'. repeat split; try assumption.
+  unfold within_tick in W. apply Z.ltb_lt in W. exact W.
+Qed.
+
+(* (11) SHORTDATE / DATETIMEN(4): days 0..65535 since 1900-01-01 x every minute (seconds are dropped) *)
+Theorem C04_smalldatetime : forall t tm, (t = t_SHORTDATE \/ t = t_DATETIMEN) -> valid_time tm = true -> 1 <= cy tm <= 9999 ->
+  0 <= ref_index (cy tm, cmo tm, cd tm) - ref_index_1900 <= 65535 ->
+  exists bs, enc_value t (VTime tm) 4 = Ok bs /\ zlen bs = 4 /\
+             dec_value t bs = Ok (VTime (CT (cy tm) (cmo tm) (cd tm) (ch tm) (cmi tm) 0 0)).
+Proof.
+  intros t tm Ht V Hy Hd. rewrite ref_index_1900_eq in Hd.
+  destruct (small_roundtrip t tm Ht V Hy Hd) as [E [L D]]. eexists. split; [exact E|]. split; [exact L|exact D].
+Qed.
+
+(* (12) BIGDATETIMEN / BIGTIMEN: exact to the microsecond (the part below a microsecond is dropped) *)
+Theorem C04_bigdatetime_us : forall tm, valid_time tm = true -> 1 <= cy tm <= 9999 ->
+  exists bs, enc_value t_BIGDATETIMEN (VTime tm) 8 = Ok bs /\ zlen bs = 8 /\
+    dec_value t_BIGDATETIMEN bs = Ok (VTime (CT (cy tm) (cmo tm) (cd tm) (ch tm) (cmi tm) (cs tm) (cns tm / 1000 * 1000))).
+Proof.
+  intros tm V Hy. destruct (bigdatetime_roundtrip tm V ltac:(lia)) as [E D].
+  eexists. split; [exact E|]. split; [apply GoIntFacts.zlen_le_put|exact D].
+Qed.
+Theorem C04_bigtime_us : forall tm, valid_time tm = true ->
+  exists bs, enc_value t_BIGTIMEN (VTime tm) 8 = Ok bs /\ zlen bs = 8 /\
+    dec_value t_BIGTIMEN bs = Ok (VTime (CT 1 1 1 (ch tm) (cmi tm) (cs tm) (cns tm / 1000 * 1000))).
+Proof.
+  intros tm V. destruct (bigtime_roundtrip tm V) as [E D].
+  eexists. split; [exact E|]. split; [apply GoIntFacts.zlen_le_put|exact D].
+Qed.
+
+(* (13) TIME / TIMEN: every nanosecond of the day: a valid tick count below 25 920 000, decoding to a time of day on
+   0001-01-01 less than 1/300 s away; in the last half tick of the day (no nearest tick inside the day) the last
+   tick 23:59:59.996 stands for the value; identical when the value lies on a tick *)
+Theorem C04_time_tick : forall t tm, (t = t_TIME \/ t = t_TIMEN) -> valid_time tm = true ->
+  exists bs tm', enc_value t (VTime tm) 4 = Ok bs /\ zlen bs = 4 /\
+    dec_value t bs = Ok (VTime tm') /\ valid_time tm' = true /\ (cy tm', cmo tm', cd tm') = (1, 1, 1) /\
+    (tod_us tm < 86399998334 -> 300 * Z.abs (tod_ns tm' - tod_ns tm) < 1000000000) /\
+    (86399998334 <= tod_us tm -> tod_ns tm' = 86399996000000) /\
+    (on_tick (tod_ns tm) = true -> tod_ns tm' = tod_ns tm).
+Proof.
+  intros t tm Ht V. destruct (time_roundtrip t tm Ht V) as [E [K [tm' [D [V' [C [W [S [O _]]]]]]]]].
+  exists (GoInt.le_put 4 (time_ticks tm)), tm'. repeat split; try assumption.
+  - apply GoIntFacts.zlen_le_put.
+  - intros H. specialize (W H). unfold within_tick in W. apply Z.ltb_lt in W. exact W.
+Qed.
+
+(* (14) NULL: for every nullable type (LengthBytes known and a Go mapping exists; all 256 type codes swept) nil encodes to
+   zero length and zero length decodes to NULL; the library's own NULL of MONEYN/DECN/NUMN (a Decimal without a value)
+   encodes to zero length again *)
+Theorem C04_null : forall t len, nullable t = true ->
+  enc_value t VNull len = Ok [] /\ exists v, dec_value t [] = Ok v /\ is_null v = true.
+Proof. exact null_roundtrip. Qed.
+Theorem C04_null_decimal : forall t p s len, (t = t_MONEYN \/ t = t_DECN \/ t = t_NUMN) ->
+  dec_value t [] = Ok (VDec 0 0 None) /\ enc_value t (VDec p s None) len = Ok [].
+Proof. exact null_decimal_roundtrip. Qed.
+
+(* (15) the calendar of the model is the reference calendar: the model's day arithmetic inverts itself on every valid
+   date of every year, and the reference day number is the number of next_day steps from 0001-01-01 *)
+Theorem C04_civil_inverse : forall y m d, 1 <= m <= 12 -> 1 <= d <= month_len y m ->
+  civil_of_days (days_of_civil y m d) = (y, m, d).
+Proof. exact civil_of_days_of_civil. Qed.
+Theorem C04_ref_index_is_walk : forall n, ref_index (walk n (1, 1, 1)) = Z.of_nat n /\ valid_date (walk n (1, 1, 1)) = true.
+Proof. exact ref_index_walk. Qed.
+
+(* (16) summary: on the WHOLE domain of the property (Spec.in_domain: DESIGN Appendix C) and for NULL of every nullable
+   type, the model satisfies the executable round-trip specification that every run applies to the implementation's
+   output (produced bytes are bytes, fixed-size types produce their size, the decoded value is the same value: exact or to
+   the tick).  Together with the correspondence run (model = implementation) this is the property on all inputs. *)
+Theorem C04_model_meets_spec : forall t len v,
+  in_domain t v len = true \/ (v = VNull /\ nullable t = true) ->
+  roundtrip_ok t len v (enc_value t v len) (match enc_value t v len with Ok b => Some (dec_value t b) | _ => None end) = true.
+Proof. exact model_meets_spec. Qed.
+
+(* non-vacuity: concrete members of the domains, with the bytes *)
+Example C04_ex_int : enc_value t_INT4 (VInt I32 (-2)) 4 = Ok [254; 255; 255; 255] /\ dec_value t_INT4 [254; 255; 255; 255] = Ok (VInt I32 (-2)).
+Proof. split; vm_compute; reflexivity. Qed.
+Example C04_ex_unitext : enc_value t_UNITEXT (VText [97; 233; 8364; 128512]) 0 = Ok [97; 0; 233; 0; 172; 32; 61; 216; 0; 222]
+  /\ dec_value t_UNITEXT [97; 0; 233; 0; 172; 32; 61; 216; 0; 222] = Ok (VText [97; 233; 8364; 128512]).
+Proof. split; vm_compute; reflexivity. Qed.
+Example C04_ex_pre1900 : enc_value t_DATETIME (VTime (CT 1899 12 31 12 0 0 0)) 8 = Ok [255; 255; 255; 255; 0; 193; 197; 0]
+  /\ dec_value t_DATETIME [255; 255; 255; 255; 0; 193; 197; 0] = Ok (VTime (CT 1899 12 31 12 0 0 0)).
+Proof. split; vm_compute; reflexivity. Qed.
+Example C04_ex_carry : enc_value t_DATETIME (VTime (CT 1999 12 31 23 59 59 999000000)) 8 = Ok [172; 142; 0; 0; 0; 0; 0; 0]
+  /\ dec_value t_DATETIME [172; 142; 0; 0; 0; 0; 0; 0] = Ok (VTime (CT 2000 1 1 0 0 0 0)).
+Proof. split; vm_compute; reflexivity. Qed.
+Example C04_ex_time_last : enc_value t_TIME (VTime (CT 1 1 1 23 59 59 999000000)) 4 = Ok [255; 129; 139; 1]
+  /\ dec_value t_TIME [255; 129; 139; 1] = Ok (VTime (CT 1 1 1 23 59 59 996000000)).
+Proof. split; vm_compute; reflexivity. Qed.
+Example C04_ex_domain : in_domain t_DATETIME (VTime (CT 1 1 1 0 0 0 0)) 8 = true /\ in_domain t_DATETIME (VTime (CT 9999 12 31 23 59 59 999999999)) 8 = true
+  /\ nullable t_INTN = true /\ nullable t_UNITEXT = true /\ nullable t_INT4 = false.
+Proof. repeat split; vm_compute; reflexivity. Qed.
+(* the constants of the code the model writes as literals *)
+Example C04_constants : c_day_us = day_us /\ c_minute_us = 60000000 /\ c_millisecond_us = 1000 /\
+  c_epoch1900 = (1900, 1, 1) /\ c_epoch_ratadie = (1, 1, 1) /\
+  (c_dec_default_precision, c_dec_default_scale, c_money_precision, c_money_scale, c_shortmoney_precision, c_shortmoney_scale) = (18, 0, 20, 4, 10, 4).
+Proof. repeat split; reflexivity. Qed.
+
+Print Assumptions C04_int_roundtrip.
+Print Assumptions C04_intn_roundtrip.
+Print Assumptions C04_float_roundtrip.
+Print Assumptions C04_bit_roundtrip.
+Print Assumptions C04_money_roundtrip.
+Print Assumptions C04_shortmoney_roundtrip.
+Print Assumptions C04_numeric_roundtrip.
+Print Assumptions C04_char_roundtrip.
+Print Assumptions C04_binary_roundtrip.
+Print Assumptions C04_unitext_roundtrip.
+Print Assumptions C04_date_roundtrip.
+Print Assumptions C04_datetime_tick.
+Print Assumptions C04_smalldatetime.
+Print Assumptions C04_bigdatetime_us.
+Print Assumptions C04_bigtime_us.
+Print Assumptions C04_time_tick.
+Print Assumptions C04_null.
+Print Assumptions C04_null_decimal.
+Print Assumptions C04_civil_inverse.
+Print Assumptions C04_ref_index_is_walk.
+Print Assumptions C04_model_meets_spec.
